@@ -516,6 +516,7 @@ func (r *runner) episode(tc *tcase, v *vector) {
 			a, b := now[s.Eq[0]], now[s.Eq[1]]
 			if a.Norm() != b.Norm() {
 				name := "shape"
+				a, b := valueParts(a), valueParts(b)
 				for i := 0; i < len(a.Parts) && i < len(b.Parts); i++ {
 					if a.Parts[i].Norm != b.Parts[i].Norm {
 						name = b.Parts[i].Name
@@ -644,6 +645,17 @@ func replay(path string, shard, nshards int, only string) {
 	sum.Nontrivial = len(r.seen)
 	sum.Note("episodes", n)
 	sum.Print()
+}
+
+// valueParts: the stores that hold a value (empty slices do not).
+func valueParts(s *rw.Snap) *rw.Snap {
+	o := &rw.Snap{}
+	for _, p := range s.Parts {
+		if p.HiLen > p.Lo {
+			o.Parts = append(o.Parts, p)
+		}
+	}
+	return o
 }
 
 // diffField names the struct field in whose rendering two contents first differ.
